@@ -25,6 +25,12 @@ RULE = ("random 32-byte hashes x iterations {0, 1, 255, 256, 65535, random, -1, 
         "OP_SIGVER | hash | BE16(iteration), then the signatures in file order until it reports "
         "'authorized', and the command fails iff it never does. distinct = (iteration class, "
         "#signatures, threshold, operation); non-trivial = all")
+RULE_ADDED = (
+              'Also: key runs naming another version on an existing file or creating the file; '
+              'look-alike hashes (only blanks between digits may be tolerated, and then '
+              'canonically); the same signature repeated in the file; half of the authorize '
+              'dialogues through adm_ledger main() ')
+RULE = RULE + " " + RULE_ADDED.strip()
 ASSUMPTIONS = [
     "own Keccak-256 (pv/oracle/hashes.py) and OpenSSL verification are the oracles",
     "simulated UI (pv/simdev/genuine.py) answers the signer-authorization dialogue",
